@@ -25,6 +25,10 @@ def port_roles(idx, c, ctor):
         scan(d.target)
         scan(d.value)
     for key, (val, gen, ln) in ctor.stores.items():
+        if val[0] == 'phi' and val[3] == ('const', None):
+            val = val[2]                        # self._port = <call> if cond else None
+        elif val[0] == 'phi' and val[2] == ('const', None):
+            val = val[3]
         if val[0] == 'call' and val[1][0] == 'attr' and val[1][2] in roles:
             roles[val[1][2]].append(ir.parse(key))
             calls[val[1][2]].append(val)
